@@ -195,6 +195,23 @@ def trace_stage(ctx, l, exe, ns):
     return [(int(d["op"].split()[2], 16), d) for d in dis]
 
 
+def skeleton_stage(ctx, l, rows):
+    """tie T: the integer skeleton re-extracted from the C text vs the hand model, executed on every table length"""
+    f = LV[l]["f"]
+    ns = list(range(f - rows + 1, f + 1)) + [2, 3, 4, f - rows]
+    outs = ctx.driver(["skel.even %x %x" % (l, n) for n in ns])
+    bad = [(n, o) for n, o in zip(ns, outs) if not o.startswith("1 ")]
+    nofault = sum(1 for o in outs if o.startswith("1 1"))
+    ctx.evaluations += len(ns)
+    ctx.obligation("integer skeleton (SqiGen.ChainSkel) = hand model on every table length L%d (%d runs, %d fault-free)" % (l, len(ns), nofault),
+                   not bad, str(bad[:1])[:500])
+    for n, o in bad[:1]:
+        real = real_code_on(ctx, l, n)
+        found = isinstance(real.get("e2e"), list) and bool(real["e2e"]) or ("no abort" not in str(real.get("sanitizer", "no abort")))
+        ctx.violation("skeleton:L%d:len=%d" % (l, n), "the integer skeleton re-extracted from ec_eval_even_strategy no longer matches the model of the theorems",
+                      dict(level=l, isog_len=n, comparison=o[:1500], real_code=real), found=bool(found))
+
+
 def classify_trace_disagreement(ctx, l, exe, n, d):
     """model and code disagree on the traversal: is the *property* broken on this length? -> end-to-end oracle"""
     cases = e2e_cases(ctx, l, [n])
@@ -317,7 +334,7 @@ def probes(ctx, levels):
 
 # ------------------------------------------------------------------------------------------------ main
 def run(ctx):
-    ctx.trusted += ["tools/translate/tables.py (STRATEGY4 extraction)", "tools/translate/evenguard.py (guard of ec_eval_even re-read from the C text)",
+    ctx.trusted += ["tools/translate/tables.py (STRATEGY4 extraction)", "tools/translate/evenguard.py (guard of ec_eval_even re-read from the C text)", "tools/translate/chainskel.py (integer skeleton slicer; event classification table KINDS)",
                     "hand model SqiModel.EvenChain tied by hook-trace correspondence (tools/harness/drv_chain.c) and by the end-to-end oracle",
                     "tools/props/chain_oracle.py (python big-int Velu oracle)",
                     "hooks: SQISIGN_VERIF_TRACE calls in ec_eval_even_strategy (guarded, add-only)"]
@@ -337,6 +354,7 @@ def run(ctx):
             ns = [n for n in sample_lengths(ctx, l, rows, 24) if n >= f - rows + 1]
         else:
             ns = list(range(f - rows + 1, f + 1))
+        skeleton_stage(ctx, l, rows)
         for n, d in trace_stage(ctx, l, exes[l], sorted(set(ns)))[:3]:
             classify_trace_disagreement(ctx, l, exes[l], n, d)
         k = 7 if ctx.quick else None
